@@ -776,13 +776,11 @@ func (env *rEnv) call(n *rNode) Value {
 		}
 		switch x := v.(type) {
 		case VMap:
-			return sym(IntLit(int64(x.Cell)))
+			return sym(e.mapIdent(env.post, x.Cell))
 		case VAbs:
 			if x.Kind == "json" {
 				if jt, ok := x.Data.(Term); ok {
-					if cell, ok := env.post.jsonMaps["jsonmap:"+jt.S]; ok {
-						return sym(IntLit(int64(cell)))
-					}
+					return sym(e.jsonMapIdent(env.post, jt))
 				}
 			}
 		}
@@ -796,6 +794,11 @@ func (env *rEnv) call(n *rNode) Value {
 					key = "k"
 				}
 				if t, ok := ev.Terms[key]; ok {
+					if key == "m" {
+						if c, ok := t.intConst(); ok {
+							return sym(e.mapIdent(env.post, int(c.Int64())))
+						}
+					}
 					return sym(t)
 				}
 			}
@@ -807,7 +810,11 @@ func (env *rEnv) call(n *rNode) Value {
 		var alts []Term
 		for _, ev := range env.post.trace {
 			if ev.Kind == "mapread" && ev.Terms != nil {
-				alts = append(alts, And(Eq(ev.Terms["m"], id), Eq(ev.Terms["k"], key)))
+				mt := ev.Terms["m"]
+				if c, ok := mt.intConst(); ok {
+					mt = e.mapIdent(env.post, int(c.Int64()))
+				}
+				alts = append(alts, And(Eq(mt, id), Eq(ev.Terms["k"], key)))
 			}
 		}
 		return sym(Or(alts...))
@@ -1377,4 +1384,21 @@ func (e *Engine) nullStringType() *types.Struct {
 		}
 	}
 	return nil
+}
+
+// mapIdent: the identity of a Go map as a term. Maps obtained from a decoded JSON value are identified by that value
+// (asserting the same `any` to map[string]any twice gives the same map); other maps by their cell.
+func (e *Engine) mapIdent(st *State, cell int) Term {
+	for k, c := range st.jsonMaps {
+		if c == cell && strings.HasPrefix(k, "jsonmap:") {
+			return e.jsonMapIdent(st, mkT(k[len("jsonmap:"):], SJson))
+		}
+	}
+	return IntLit(int64(cell))
+}
+
+func (e *Engine) jsonMapIdent(st *State, jt Term) Term {
+	id := App(SInt, "j.mapid", jt)
+	st.fact(Lt(id, IntLit(0))) // never collides with a cell number
+	return id
 }
